@@ -23,7 +23,7 @@ ASSUMPTIONS = [
 ]
 EXPLANATION = "planted VCF -> evidence table; oracle = expected per-variant support and reference support, foreign records ignored, planted major pair reported"
 
-FOREIGN = ["mnp_unrelated", "complex", "symbolic", "star", "long_del_ins"]
+FOREIGN = ["mnp_unrelated", "complex", "symbolic", "star", "long_del_ins", "complex_at_del", "complex_at_ins"]
 ODDGT = ["./.", ".", "1", "0/1/1", "./1"]
 
 
@@ -152,6 +152,14 @@ def run_case(case):
         if case.get("pad") and kind in ("ins", "del"):
             labels.append("padded-indel-record")
         mismatch = case["refmismatch"] and kind == "snp"
+        if case["refmismatch"] and kind == "del" and not case.get("pad"):
+            # the record's REF disagrees with the reference at one of the DELETED bases (not the anchor): still the same deletion
+            p0_, ref_, alt_ = rr[0]
+            k_ = 1 + (pos % (len(ref_) - 1)) if len(ref_) > 1 else None
+            if k_:
+                ref_ = ref_[:k_] + {"A": "C", "C": "G", "G": "T", "T": "A"}.get(ref_[k_], "A") + ref_[k_ + 1:]
+                rr = [(p0_, ref_, alt_)]
+                labels.append("ref-mismatch-inside-deletion")
         for (p0, ref, alt) in rr:
             if mismatch:
                 # the same genotype spelled against a reference that carries the alternate base
@@ -214,6 +222,7 @@ def run_case(case):
 
     base_recs = list(recs)
     extras = []
+    directed = []
     for j, (kind, seed_) in enumerate(case["extras"]):
         p = free_pos(seed_)
         if p is None:
@@ -230,6 +239,25 @@ def run_case(case):
             e = (p, G[p], ["*"], gts("0/1", j))
         elif kind == "long_del_ins":
             e = (p, G[p:p + 4], [flip[G[p]] + "T"], gts("1/1", j))
+        elif kind in ("complex_at_del", "complex_at_ins"):
+            # a complex record that shares anchor and REF span with a catalogued deletion (or whose ALT tail is a catalogued insertion
+            # behind a replaced base) is NOT that variant: it must be ignored
+            want_k = "del" if kind == "complex_at_del" else "ins"
+            cands_ = [m for m in sorted(gene.mutations) if m[1].startswith(want_k) and "ins" not in m[1][3:] and m not in expected
+                      and lo + 5 < m[0] < hi - 12 and not any(a <= q < b for a, b in footprints for q in range(m[0] - 2, m[0] + len(m[1]) + 2))]
+            if not cands_:
+                continue
+            cp, co = cands_[seed_ % len(cands_)]
+            if want_k == "del":
+                a0 = cp - 1
+                tail = flip[co[3]] + ("T" if len(co) > 5 else "")
+                e = (a0, G[a0] + co[3:], [G[a0] + tail], gts("0/1", j))
+            else:
+                e = (cp, G[cp] + G[cp + 1], [G[cp] + co[3:]], gts("0/1", j))
+                if co[3:] == G[cp + 1] or (co[3:] + "x")[0] == G[cp + 1]:
+                    continue  # would be a plain insertion after trimming
+            directed.append((cp, co))
+            p = e[0]
         else:  # odd genotype on an ordinary SNP record
             e = (p, G[p], [flip[G[p]]], gts(kind, j))
         extras.append(e)
@@ -309,6 +337,9 @@ def run_case(case):
             shown = {k: v for k, v in t1.items() if k[0] in ex_sites}
             if a != b:
                 viol.append(V("extras-change-other-evidence", diff=str(set(a.items()) ^ set(b.items()))[:300]))
+            for key_ in directed:
+                if t1.get(key_, 0):
+                    viol.append(V("complex-record-counted-as-catalogued-indel", variant=f"{key_[0]}.{key_[1]}", support=t1[key_]))
             oddonly = all(e[3][idx] in ODDGT for e in extras)
             if shown and oddonly:
                 viol.append(V("non-diploid-genotype-used", shown={str(k): v for k, v in shown.items()}))
